@@ -11,7 +11,7 @@ from contracts.scheduler import NodeFailure
 from pyvc import lib, sym
 from pyvc.core import C, ContractBindError, Unsupported
 from pyvc.engine import LoopSpec, SAwaitable
-from pyvc.sym import B, I, Id, Key, SBool, SId, SInt, SIter, SList, SMap, SSeq, SSet, STerm, SVal, Sym, Val, bv, term
+from pyvc.sym import B, I, Id, Key, SBool, SId, SInt, SIter, SList, SMap, SSeq, SSet, STerm, SVal, Sym, Val, bv, tb, term, wrap
 
 x = bv("x!a", Id)
 Tag = z3.DeclareSort("Tag")
@@ -345,7 +345,9 @@ class ExecutionSetup:
                 return None
 
         class _Ex(Sym):
-            pass
+            def _resolved_nodes(self_, ids):
+                # summary contract of BaseDAGExecution._resolved_nodes (unit ResolvedNodes): the node objects of these ids
+                return ("the-nodes-of", ids)
 
         ex = _Ex()
         ex.dag = _Dag()
@@ -354,8 +356,54 @@ class ExecutionSetup:
         if isinstance(r, SAwaitable):
             r.run()
         n = self.qualname
-        ok = len(calls) == 1 and calls[0][0] is ex.target_nodes and calls[0][1] is ex.exclude_nodes and calls[0][2] is ex.root_nodes
+        # From the property (C11: "setup runs only the setup nodes its selection needs"), not from the code: the executor holds
+        # RESOLVED ids; DAG.setup resolves ALIASES, and there a string that is also a tag means the tagged nodes.  What
+        # reaches DAG.setup must therefore denote exactly the executor's nodes: the node objects themselves (an id string
+        # handed over as it is was the defect repaired by the `fix:` commit recorded in known_findings.json).
+        exact = lambda got, ids: isinstance(got, tuple) and len(got) == 2 and got[0] == "the-nodes-of" and got[1] is ids  # noqa: E731
+        ok = len(calls) == 1 and exact(calls[0][0], ex.target_nodes) and exact(calls[0][1], ex.exclude_nodes) and exact(calls[0][2], ex.root_nodes)
         C.check(z3.BoolVal(ok), f"{n}.post.C11.runs_the_setup_nodes_of_the_executors_own_selection_roots_included", {"C11", "C12"}, "post")
+        return "return"
+
+
+class ResolvedNodes:
+    """BaseDAGExecution._resolved_nodes: None stays None; a sequence of resolved ids becomes the sequence of THEIR node
+    objects (same length, same order), so that resolving them again as aliases gives back exactly these ids"""
+
+    module = "tawazi._dag.dag"
+    qualname = "BaseDAGExecution._resolved_nodes"
+    loops = {}
+
+    def cases(self):
+        return ["none", "ids"]
+
+    def run(self, f, case):
+        node_of = z3.Function("node_of_id", Id, Val)
+
+        class _Dag(Sym):
+            def get_node_by_id(self_, nid):
+                return SVal(node_of(term(nid)))
+
+        class _Ex(Sym):
+            pass
+
+        ex = _Ex()
+        ex.dag = _Dag()
+        n = self.qualname.split(".")[-1]
+        if case == "none":
+            r = f(ex, None)
+            C.check(z3.BoolVal(r is None), f"{n}.post.C11.no_selection_stays_no_selection", {"C11", "C12"}, "post")
+            return "return"
+        ident = z3.Function("resolved_id", I, Id)
+        ln = C.fresh("n_ids", I)
+        C.assume(ln >= 0)
+        ids = SSeq(ln, lambda i: SId(ident(i)), list, "ids")
+        r = f(ex, ids)
+        if not isinstance(r, SSeq):
+            raise Unsupported("result of _resolved_nodes is not a sequence the engine models")
+        i = bv("i!rn", I)
+        C.check(r.n == ln, f"{n}.post.C11.one_node_per_resolved_id", {"C11", "C12"}, "post")
+        C.check(z3.ForAll([i], z3.Implies(z3.And(i >= 0, i < ln), term(r.at(i), Val) == node_of(ident(i)))), f"{n}.post.C11.the_ith_element_is_the_node_of_the_ith_id", {"C11", "C12"}, "post")
         return "return"
 
 
